@@ -587,7 +587,7 @@ def run(ctx, args):
             return ctx.finish("replay of " + args.replay, replay_open=replay_open)
         quick = ctx.tier == "quick"
         specs = [{"tree": FIXED, "route": "parse"}, {"tree": FIXED, "route": "api"}]
-        for i in range(3 if quick else 40):
+        for i in range(8 if quick else 200):
             specs.append({"tree": gen_el(ctx.rng, 2), "route": ctx.rng.choice(["parse", "api"])})
         for i, spec in enumerate(specs):
             run_spec(ctx, spec, quick or i >= 6, ("stack", "insensitivity") if (i < 2 or not quick) else ("insensitivity",))
